@@ -149,6 +149,56 @@ def r16_5_scope(repo: Repo, rep: Report):
                     rep.bad("R16.5", m2, st, src(st)[:80], "module-level unsat-core store")
 
 
+def r16_8_store_append_only(repo: Repo, rep: Report):
+    rep.rule("R16.8", "the core store is append-only: a recorded core is never modified, and no core is removed (solver threads read the store while the callback thread writes it)")
+    MUT = {"clear", "extend", "remove", "pop", "insert", "sort", "reverse", "__setitem__", "__delitem__", "discard", "update"}
+    n = 0
+    for modname in ("solve", "__main__"):
+        m = repo.mod(modname)
+        for q, fn in repo.functions(modname):
+            if "unsat_cores" not in src(fn):
+                continue
+            # names that denote the store or one of its elements
+            store_names, elem_names = set(), set()
+            for x in body_walk(fn):
+                if isinstance(x, ast.Assign) and isinstance(x.targets[0], ast.Name) and src(x.value).endswith("unsat_cores"):
+                    store_names.add(x.targets[0].id)
+            for x in body_walk(fn):
+                if isinstance(x, (ast.For, ast.comprehension)) and isinstance(x.target, ast.Name) and (src(x.iter).endswith("unsat_cores") or src(x.iter) in store_names):
+                    elem_names.add(x.target.id)
+            for c in body_walk(fn):
+                if isinstance(c, ast.Call) and isinstance(c.func, ast.Attribute):
+                    recv = src(c.func.value)
+                    is_store = recv.endswith("unsat_cores") or recv in store_names
+                    is_elem = recv in elem_names
+                    if is_store and c.func.attr != "append" and c.func.attr in MUT:
+                        n += 1
+                        rep.bad("R16.8", m, c, f"{modname}.{q}: {src(c)[:80]}", "the core store is modified other than by appending")
+                    elif is_elem and c.func.attr in MUT | {"append"}:
+                        n += 1
+                        rep.bad("R16.8", m, c, f"{modname}.{q}: {src(c)[:80]}", "a recorded core is modified in place: between two steps of the modification a concurrent check_unsat_cores sees a shorter (even empty) core, `all(..)` over it is true and a satisfiable query is answered unsat")
+                elif isinstance(c, (ast.Subscript,)) and isinstance(c.ctx, (ast.Store, ast.Del)) and (src(c.value).endswith("unsat_cores") or src(c.value) in store_names | elem_names):
+                    n += 1
+                    rep.bad("R16.8", m, c, f"{modname}.{q}: {src(m.parents.get(c, c))[:80]}", "an entry of the core store is replaced or deleted")
+    ms, ap = repo.fn("solve.FunctionContext.append_unsat_core")
+    calls = [c for c in body_walk(ap) if isinstance(c, ast.Call) and last_attr(c) == "append" and src(c.func.value).endswith("unsat_cores")]
+    rep.check("R16.8", len(calls) == 1 and [src(a) for a in calls[0].args] == ["unsat_core"], ms, ap, f"append_unsat_core: {[src(c) for c in calls]}", "a learned core must be appended as it is")
+    rep.ok("R16.8", ms, ap, f"in-place modifications of the store or of recorded cores: {n}")
+
+
+def r16_9_shared(repo: Repo, rep: Report):
+    """which reply counts as `unsat` (shared with C05 R05.3): with the cache on every query ends in (get-unsat-core), so
+    a failed (check-sat) produces an error line that mentions `unsat core` - only the complete first line may decide"""
+    from hsa.rules.c05 import r05_3_failure_mapping
+
+    r05_3_failure_mapping(repo, rep)
+    # assertions are tracked in the query exactly when the dump appends their names (both keyed on args.cache_solver):
+    # a query built untracked but dumped with named assertions is an error reply, which keeps infeasible paths (C11 R11.1)
+    from hsa.rules.c11 import r11_1_serialisation
+
+    r11_1_serialisation(repo, rep)
+
+
 def r16_6_encoding(repo: Repo, rep: Report):
     from hsa.rules.c11 import r11_3_dump_writer_reader
 
@@ -164,4 +214,4 @@ def r16_7_refined_queries(repo: Repo, rep: Report):
     r04_2_refine_exact(repo, rep)
 
 
-RULES = [r16_7_refined_queries, r16_6_encoding, r16_1_core_recording, r16_2_subset_test, r16_3_ids_equal_asserted, r16_4_id_stability, r16_5_scope]
+RULES = [r16_7_refined_queries, r16_6_encoding, r16_1_core_recording, r16_2_subset_test, r16_3_ids_equal_asserted, r16_4_id_stability, r16_5_scope, r16_8_store_append_only, r16_9_shared]
